@@ -4,7 +4,7 @@ Line-protocol driver for the `seq` cluster (TraitList / builtin list).
 Run:  lake env lean --run TraitsVerif/Driver/Seq.lean
 -/
 import TraitsVerif.Driver.Proto
-import TraitsVerif.Model.TraitList
+import TraitsVerif.Model.TraitListObject
 namespace TraitsVerif.Driver.Seq
 open TraitsVerif TraitsVerif.Py TraitsVerif.Model TraitsVerif.Proto
 
@@ -62,18 +62,42 @@ def pyRun : List Int → List (Op Int) → List String
     | .error e => s!"err {e.name}" :: pyRun l ops
     | .ok (l', r) => s!"ok {showIntList l'} {showOpt toString r} -" :: pyRun l' ops
 
+def parseTOp (s : String) : Option (TOp Int) :=
+  match words s with
+  | ["as", xs] => do pure (.assign (← intList? xs))
+  | _ => (parseOp s).map .call
+
+def parseCfg (kind : String) : Option LenCfg :=
+  match kind.splitOn ":" with
+  | ["tlo", a, b] => do pure ⟨← a.toNat?, ← b.toNat?⟩
+  | _ => none
+
 def handle (line : String) : String :=
   match (clean line).splitOn "|" with
   | [kind, v, init, ops] =>
-    match parseValidator (clean v), intList? init, (fields ops ";").mapM parseOp with
-    | some v, some init, some ops =>
-      if clean kind = "pl" then " ; ".intercalate (pyRun init ops)
+    let kind := clean kind
+    match parseValidator (clean v), intList? init with
+    | some v, some init =>
+      let E := mkEnv v
+      if kind = "pl" then
+        match (fields ops ";").mapM parseOp with
+        | some ops => " ; ".intercalate (pyRun init ops)
+        | none => "bad-case"
+      else if kind = "tl" then
+        match (fields ops ";").mapM parseOp with
+        | some ops =>
+          match TraitList.init E init with
+          | .error e => s!"err {e.name}"
+          | .ok l => " ; ".intercalate ((TraitList.run E l ops).map showRes)
+        | none => "bad-case"
       else
-        let E := mkEnv v
-        match TraitList.init E init with
-        | .error e => s!"err {e.name}"
-        | .ok l => " ; ".intercalate ((TraitList.run E l ops).map showRes)
-    | _, _, _ => "bad-case"
+        match parseCfg kind, (fields ops ";").mapM parseTOp with
+        | some c, some ops =>
+          match TraitListObject.assign c E init with
+          | .error e => s!"err {e.name}"
+          | .ok l => " ; ".intercalate ((TraitListObject.run c E l ops).map showRes)
+        | _, _ => "bad-case"
+    | _, _ => "bad-case"
   | _ => "bad-case"
 
 end TraitsVerif.Driver.Seq
